@@ -54,6 +54,7 @@ def s_case(gran):
         st.lists(page, min_size=1, max_size=3),
     )
     return st.fixed_dictionaries({
+        "warm": st.sampled_from([0, 0, 1, 2, 3, 5, 7, 9, 10, 11]),
         "hosts": st.integers(1, 3),
         "busy": st.one_of(st.just([]), st.just([]), st.just([]), st.lists(st.booleans(), min_size=3, max_size=3)),
         "timeout": st.sampled_from(TIMEOUTS),
@@ -102,7 +103,16 @@ def _run(case, ctx, sim):
                             if case["spec"] else None)
     busy = [bool(b) for b in (case["busy"] + [False] * 3)[:n]]
     cap = 2
-    cluster, session, nodes = F.build(sim, n, prof, max_in_flight=(cap + 1) if any(busy) else None)
+    warm = case.get("warm")
+    # not busy: 12 stream ids per connection + 0-11 warm-up requests, so that the first attempt travels on
+    # every stream id, 0 included (silent attempts keep their ids, hence more than a handful)
+    mif = (cap + 1) if any(busy) else (12 if warm is not None else None)
+    cluster, session, nodes = F.build(sim, n, prof, max_in_flight=mif)
+    if not any(busy):
+        with ctx.driver(["C15.warmup"]):
+            F.warm_up(sim, session, cluster, nodes, warm or 0)
+        if ctx._failures:
+            return
 
     pos = {}
     seen_pages = []
